@@ -352,15 +352,21 @@ class Roles:
         return out
 
     def state_fns(self, api_pred):
-        """bodies (outermost async fn bodies) in which an fs API matching api_pred receives a path deriving from the state path fn"""
+        """sites (body, bb, term) at which an fs API matching api_pred receives a path deriving from the state path fn. Bodies are looked at as views,
+        so a decode/encode step extracted into a named function called from the blocking closure is still found (each site once)."""
         spf = {b.name for b in self.state_path_fns()}
         out = []
-        for b in self.f.code_bodies():
+        seen = set()
+        for raw in self.f.user_bodies():
+            b = self.V(raw)
             for bb, t in b.calls():
                 if api_pred(t["callee"]["base"]) and t["args"]:
+                    key = (b.origin(bb), b.blocks[bb].get("orig_id", bb))
                     at = b.prov.operand_atoms(t["args"][0])
                     if atom_callres(at) & spf or self._closure_captures_from(b, spf):
-                        out.append((b, bb, t))
+                        if key not in seen:
+                            seen.add(key)
+                            out.append((b, bb, t))
         return out
 
     def _closure_captures_from(self, b, fn_names, depth=0):
@@ -379,9 +385,43 @@ class Roles:
 
     def outer_fn(self, b):
         """outermost enclosing fn item of a closure/coroutine body"""
+        b = self.f.bodies.get(b.name, b)
         while b.kind == "Closure" and b.parent in self.f.bodies:
             b = self.f.bodies[b.parent]
         return b
+
+    def root_env_fields(self, view, op):
+        """names of the captured variables of the view's *own* environment that operand `op` derives from directly or through spliced-in helpers
+        (a helper's parameters are resolved to the arguments it was called with)"""
+        out = set()
+        l = operand_local(op)
+        if l is None:
+            return out
+
+        seen = set()
+
+        def walk(os, depth=0):
+            for o in os:
+                if o[0] == "field" and o[1] and any(x[0] == "param" and x[1] == 1 for x in o[2]):
+                    out.add(o[1][0])
+                elif o[0] == "field" and depth < 40:
+                    walk(o[2], depth + 1)
+                elif o[0] in ("not",) and depth < 40:
+                    walk(o[1], depth + 1)
+                elif o[0] == "await" and o[3].producer is not None and depth < 40:
+                    for a in o[3].producer[1]["args"]:
+                        al = operand_local(a)
+                        if al is not None and al not in seen:
+                            seen.add(al)
+                            walk(origins(view, al), depth + 1)
+                elif o[0] == "call" and depth < 40:
+                    for a in o[3]["args"]:
+                        al = operand_local(a)
+                        if al is not None and al not in seen:
+                            seen.add(al)
+                            walk(origins(view, al), depth + 1)
+        walk(origins(view, l))
+        return out
 
     def listers(self):
         return self._memo("listers", lambda: sorted({self.outer_fn(b).name for (b, bb, t, c) in self.fs_sites(lambda n: "walk" if n in ("walkdir::WalkDir::new",) or n.endswith("fs::read_dir") else None)}))
